@@ -346,6 +346,15 @@ def s_map_iter(ex, st, func, args, ty):
     return [(st, seqobj(st, 'Iter', items))]
 
 
+def s_jv_ord(ex, st, func, args, ty):
+    """<JsonValue as PartialOrd>::lt / le / gt / ge on opaque values: the order is an uninterpreted function CMP(a, b) of the two
+    operands *in this order* (the order itself is decided by order.arms / Kani)"""
+    a, b = deep(st, ex, args[0]), deep(st, ex, args[1])
+    if a[0] != 'opq' or b[0] != 'opq': raise Unmodelled('order comparison of non-opaque values')
+    c = z3.Int(f'CMP({a[1]},{b[1]})'); op = func.rsplit('::', 1)[1]
+    return [(st, BoolV({'lt': c < 0, 'le': c <= 0, 'gt': c > 0, 'ge': c >= 0}[op]))]
+
+
 def s_type_name(ex, st, func, args, ty): return [(st, named(st, st.fresh_name('typename'), 'String'))]
 
 
@@ -382,7 +391,7 @@ def extra_summaries():
             (r'String::push_str$', s_push_str), (r'String::as_str$|<std::string::String as AsRef<str>>::as_ref$', s_identity),
             (r'^<JsonValue as PartialEq>::(eq|ne)$|^<Option<JsonValue> as PartialEq>::(eq|ne)$|^<std::option::Option<JsonValue> as PartialEq>::(eq|ne)$', s_jv_eq),
             (r'IndexMap::<.*>::entry$', s_map_entry), (r'Entry::<.*>::or_insert_with::<|Entry::<.*>::or_default$|Entry::<.*>::or_insert$', s_entry_or_insert_with),
-            (r'IndexMap::<.*>::iter$', s_map_iter), (r'JsonValue::type_name$', s_type_name)]
+            (r'IndexMap::<.*>::iter$', s_map_iter), (r'^<JsonValue as PartialOrd>::(lt|le|gt|ge)$', s_jv_ord), (r'JsonValue::type_name$', s_type_name)]
 
 
 # ---------------------------------------------------------------- argument shapes
@@ -568,6 +577,12 @@ def table():
             ('adds the member only when the object has no such key (an existing member keeps its value and place)' if absent else 'replaces the value only when the object has such a key (in place); otherwise the object is unchanged') + '; nothing for ill-typed or absent arguments',
             [(f'({nm} {{"a":1,"b":2}} "a" 9)', {'a': 1, 'b': 2} if absent else {'a': 9, 'b': 2}), (f'({nm} {{"a":1,"b":2}} "c" 9)', {'a': 1, 'b': 2, 'c': 9} if absent else {'a': 1, 'b': 2}), (f'({nm} {{"a":1,"b":2}} "b" 9)', {'a': 1, 'b': 2} if absent else {'a': 1, 'b': 9}),
              (f'({nm} [1] "a" 9)', 'nothing'), (f'({nm} {{}} 1 9)', 'nothing'), (f'({nm} {{"a":1}} "a" .nope)', 'nothing')])
+    CMP01 = z3.Int('CMP(X0,X1)'); EQ01 = z3.Bool('EQ(X0,X1)')
+    for nm, file, term in (('<', 'lt', CMP01 < 0), ('<=', 'lte', CMP01 <= 0), ('>', 'gt', CMP01 > 0), ('>=', 'gte', CMP01 >= 0), ('=', 'eq', EQ01), ('!=', 'neq', z3.Not(EQ01))):
+        add(nm, body_of('boolean/compare/' + file), (lambda args, term=term: [(z3.BoolVal(True), ('bool', term) if args[0] is not None and args[1] is not None else None)]), combos([sh_opq, sh_nothing], [sh_opq, sh_nothing]),
+            'the comparison of the first argument with the second under the value order (an uninterpreted relation of the two operands in this order; the order itself is order.arms / Kani); nothing when an argument is nothing',
+            [(f'({nm} 1 2)', nm in ('<', '<=', '!=')), (f'({nm} 2 1)', nm in ('>', '>=', '!=')), (f'({nm} 2 2)', nm in ('<=', '>=', '=')), (f'({nm} "a" "b")', nm in ('<', '<=', '!=')), (f'({nm} null false)', nm in ('<', '<=', '!=')), (f'({nm} [1,2] [1,3])', nm in ('<', '<=', '!=')),
+             (f'({nm} "z" 0)', nm in ('<', '<=', '!=')), (f'({nm} 1 .nope)', 'nothing'), (f'({nm} .nope 1)', 'nothing'), (f'({nm} 1.5 1.5)', nm in ('<=', '>=', '='))])
     return T
 
 
